@@ -79,6 +79,7 @@ def write_dicts(
         # Check if we can cast to uint
         if any(nodes_arr < 0):
             raise ValueError("Cannot write a geff with node ids that are negative")
+        nodes_arr = _exact_int_array(node_ids, nodes_arr)
         if not np.issubdtype(nodes_arr.dtype, np.integer):
             warnings.warn(
                 f"Node ids with dtype {nodes_arr.dtype} are being cast to uint", stacklevel=2
@@ -105,6 +106,34 @@ def write_dicts(
         zarr_format=zarr_format,
         structure_validation=structure_validation,
     )
+
+
+def _exact_int_array(values: Sequence[Any], arr: np.ndarray) -> np.ndarray:
+    """Undo numpy's lossy dtype inference for Python integers >= 2**63.
+
+    numpy infers int64 for Python ints below 2**63 and uint64 for larger ones, and
+    promotes a mix of the two to float64, which silently rounds the large values
+    (2**64 - 1 becomes 2**64, 2**63 + 1 becomes 2**63). If `arr` is such an array but
+    every element of `values` is an integer, build the uint64 array directly.
+
+    Args:
+        values (Sequence[Any]): The (possibly nested) sequence `arr` was created from
+        arr (np.ndarray): The result of `np.asarray(values)`
+
+    Returns:
+        np.ndarray: `arr`, or an exact uint64 array with the same shape
+
+    Raises:
+        OverflowError: If the integers do not all fit into uint64 (negative values
+            together with values >= 2**63)
+    """
+    if arr.size > 0 and (arr.dtype.kind == "f" or arr.dtype == np.uint64):
+        leaves = np.asarray(values, dtype=object).ravel()
+        if all(isinstance(v, int | np.integer) and not isinstance(v, bool) for v in leaves):
+            # also turns the `ulonglong` flavour of uint64 that numpy infers for
+            # all-large Python ints into the canonical uint64 dtype
+            return np.asarray(values, dtype=np.uint64)
+    return arr
 
 
 def _determine_default_value(data: Sequence[tuple[Any, dict[str, Any]]], prop_name: str) -> Any:
